@@ -236,10 +236,21 @@ def coverage_sound_search(ctx, shim, r, n):
 GPOS_TAGS = ["kern", "mark", "mkmk", "curs", "dist", "abvm", "blwm"]
 
 
-def rand_gpos(r, n):
-    """a GPOS table recipe with lookups of every type 1-8 (fontbuild format), well formed"""
-    def cov(kmin=1, kmax=5):
-        return sorted(set(r.sample(list(range(1, n)), r.range(kmin, min(kmax, n - 1)))))
+def rand_gpos(r, n, pool=None, pairs=None, types=None):
+    """a GPOS table recipe with lookups of every type 1-8 (fontbuild format), well formed.
+    `pool` (glyphs that really occur after GSUB) biases every coverage towards those glyphs; `pairs` (adjacent glyph pairs
+    that occur after GSUB) aims part of the pair / attachment subtables at such a pair: second glyph in the mark (second)
+    coverage, first glyph in the base / ligature / mark2 (first) coverage; `types` overrides the lookup-type weights.
+    With none of them given the draws are the ones this function always made."""
+    def cov(kmin=1, kmax=5, must=None):
+        if pool is None:
+            return sorted(set(r.sample(list(range(1, n)), r.range(kmin, min(kmax, n - 1)))))
+        k = r.range(kmin, min(kmax, n - 1))
+        gs = {(r.choice(pool) if r.chance(2, 3) else r.range(1, n - 1)) for _ in range(k)}
+        if must is not None: gs.add(must)
+        return sorted(gs)
+    def aim():
+        return r.choice(pairs) if pairs and r.chance(1, 2) else (None, None)
     def vr():
         k = r.below(4)
         if k == 0: return {"xAdvance": r.range(-60, 60)}
@@ -252,7 +263,7 @@ def rand_gpos(r, n):
     nl = r.range(2, 6)
     lookups = []
     for li in range(nl):
-        t = r.choice([1, 2, 2, 3, 4, 5, 6, 7, 8])
+        t = r.choice(types or [1, 2, 2, 3, 4, 5, 6, 7, 8])
         subs = []
         for _ in range(r.range(1, 2)):
             if t == 1:
@@ -260,21 +271,29 @@ def rand_gpos(r, n):
                 subs.append({"format": 1, "coverage": c, "value": vr() or {"xAdvance": 7}} if r.chance(1, 2) else
                             {"format": 2, "coverage": c, "values": [vr() or {"xAdvance": 3} for _ in c]})
             elif t == 2:
-                c = cov()
+                first, second = aim() if pool is not None else (None, None)
+                c = cov(must=first)
                 if r.chance(1, 2):
                     subs.append({"format": 1, "coverage": c, "pairsets": [
-                        [(s2, vr() or {"xAdvance": 5}, vr()) for s2 in sorted(set(r.sample(list(range(1, n)), r.range(1, 3))))] for _ in c]})
+                        [(s2, vr() or {"xAdvance": 5}, vr()) for s2 in sorted(set(r.sample(list(range(1, n)), r.range(1, 3)))
+                                                                             | ({second} if g1 == first else set()))] for g1 in c]})
                 else:
                     cd1, cd2 = r.choice(classdefs), r.choice(classdefs)
                     n1, n2 = max(cd1.values(), default=0) + 1, max(cd2.values(), default=0) + 1
                     subs.append({"format": 2, "coverage": cov(2, 7), "classdef1": dict(cd1), "classdef2": dict(cd2),
                                  "matrix": [[(vr() or {"xAdvance": 9}, vr()) for _ in range(n2)] for _ in range(n1)]})
             elif t == 3:
-                c = cov(2, 6)
+                first, second = aim() if pool is not None else (None, None)
+                c = cov(2, 6, first)
+                if second is not None: c = sorted(set(c) | {second})
                 subs.append({"coverage": c, "entry_exit": [(anc(), anc()) for _ in c]})
             elif t in (4, 5, 6):
                 k = r.range(1, 2)
-                mc, bc = cov(1, 4), cov(1, 5)
+                if pool is None:
+                    mc, bc = cov(1, 4), cov(1, 5)
+                else:
+                    first, second = aim()
+                    mc, bc = cov(1, 4, second), cov(1, 5, first)
                 marks = [(r.below(k), anc() or (1, 1)) for _ in mc]
                 if t == 4:
                     subs.append({"mark_coverage": mc, "base_coverage": bc, "class_count": k, "marks": marks,
